@@ -20,7 +20,7 @@ from collections.abc import Iterator
 from copy import copy
 from itertools import zip_longest
 from typing import cast, Any, Optional, Union, NoReturn
-from urllib.parse import urlsplit
+from urllib.parse import urlsplit, unquote
 from urllib.request import urlopen
 from xml.sax.saxutils import escape
 from http.client import HTTPException
@@ -1255,6 +1255,21 @@ def evaluate__uri_collection(self: XPathFunction, context: ta.ContextType = None
     return resource_collection
 
 
+ENVIRON_PATH_PATTERN = re.compile(r'/proc/(\d+|self|thread-self)(/task/\d+)?/environ')
+
+
+def is_environment_resource(uri: str) -> bool:
+    """Returns `True` if the URI refers to a file that exposes the environment of a process."""
+    try:
+        parts = urlsplit(uri)
+        if parts.scheme not in ('', 'file'):
+            return False
+        path = os.path.realpath(unquote(parts.path))
+    except (ValueError, OSError):
+        return False
+    return ENVIRON_PATH_PATTERN.fullmatch(path) is not None
+
+
 @method(function('unparsed-text', nargs=(1, 2),
                  sequence_types=('xs:string?', 'xs:string', 'xs:string?')))
 @method(function('unparsed-text-lines', nargs=(1, 2),
@@ -1284,6 +1299,9 @@ def evaluate__unparsed_text(self: XPathFunction, context: ta.ContextType = None)
         uri = self.get_absolute_uri(href)
     except ValueError:
         raise self.error('FOUT1170') from None
+
+    if is_environment_resource(uri) and not getattr(context, 'allow_environment', False):
+        raise self.error('FOUT1170', 'the access to system environment is not allowed')
 
     try:
         ''.encode(encoding)  # a LookupError also for codecs that are not text encodings
@@ -1355,6 +1373,9 @@ def evaluate__unparsed_text_available(self: XPathFunction, context: ta.ContextTy
     try:
         uri = self.get_absolute_uri(href)
     except ValueError:
+        return False
+
+    if is_environment_resource(uri) and not getattr(context, 'allow_environment', False):
         return False
 
     try:
